@@ -482,6 +482,61 @@ class Renderer:
             self.tok("=")
             self.gap("opt", want_space=True)
             self.expr(("bin", "+", ("pc",), ("num", s.delta, None)), s.scope)
+        elif k == "testraw":
+            self.tok(".test", "dir")
+            self.gap("sp")
+            self.tok('"%s"' % s.name, "str")
+            self.gap("opt", want_space=True)
+            self.tok("{")
+            self.depth += 1
+            for it in s.items:
+                self.gap("stmt")
+                if it[0] == "ins":
+                    self.tok(it[1], "mn")
+                    if it[1] in ("lda", "ldx", "ldy"):
+                        self.gap("sp")
+                        self.tok("#")
+                        self.gap("none")
+                        self.tok(("num", 7, None), "num")
+                    elif it[1] == "sta":
+                        self.gap("sp")
+                        self.tok(("num", 0x80, None), "num")
+                elif it[0] == "assert":
+                    self.tok(".assert", "dir")
+                    self.gap("sp")
+                    form = it[1]
+                    if form == 0:
+                        toks = [("cpu.a", "id"), ("==", "op"), (("num", 7, None), "num")]
+                    elif form == 1:
+                        toks = [("ram", "id"), ("(", "punct"), (("num", 0x80, None), "num"), (")", "punct"), ("!=", "op"), (("num", 1, None), "num")]
+                    elif form == 2:
+                        toks = [("cpu.flags.zero", "id")]
+                    else:
+                        toks = [("*", "op"), (">=", "op"), (("num", 0, None), "num")]
+                    for ti, (t, c) in enumerate(toks):
+                        if ti:
+                            self.gap("none" if t in ("(", ")") or toks[ti - 1][0] == "(" else "opt", want_space=True)
+                        self.tok(t, c)
+                    if it[2] is not None:
+                        self.gap("sp")
+                        self.tok('"%s"' % it[2], "str")
+                else:
+                    self.tok(".trace", "dir")
+                    if it[1]:
+                        self.gap("opt", want_space=True)
+                        self.tok("(")
+                        self.gap("opt", want_space=False)
+                        self.tok("cpu.a", "id")
+                        if it[1] == 2:
+                            self.gap("opt", want_space=False)
+                            self.tok(",")
+                            self.gap("opt", want_space=True)
+                            self.tok("cpu.x", "id")
+                        self.gap("opt", want_space=False)
+                        self.tok(")")
+            self.depth -= 1
+            self.gap("stmt" if s.items else "mopt", want_space=False)
+            self.tok("}")
         elif k == "align":
             self.tok(".align", "dir")
             self.gap("sp")
